@@ -132,3 +132,64 @@ def stor_fault_enum(prop, harness, cfg, budget, targets, scratch, known_path, se
                                    "every_index_of_every_history": bool(full),
                                    "os_calls_per_history(open,flock,pwrite)": counts}}
     return stats, cands, extra
+
+
+# ------------------------------------------------------------------------------------------ chan
+def chan_exhaustive(prop, harness, cfg, budget, targets, scratch, known_path, seed, env_base, nworkers, full):
+    """Every tape of length 1..depth over a 16-token alphabet, for capacities 4, 5 and 6 (complete
+    within that bound).  Token kinds of harness/chan/chan.cpp."""
+    exe = targets["en"].out
+    alphabet = [
+        (1, 0, 0), (1, 0, 1), (1, 9, 0), (1, 3, 0),      # W_WRITE size 1, size 2, capacity-1, exactly to the buffer end
+        (2, 0, 1), (3, 0, 0), (4, 0, 0),                 # W_MAP size 2 (held), W_COMMIT, W_ABORT
+        (5, 0, 0), (5, 0, 4), (5, 0, 3), (5, 1, 0),      # R_READ reader 0 all / one byte / nothing; reader 1 all
+        (6, 0, 0), (7, 0, 0),                            # R_MAP reader 0 (held), R_UNMAP reader 0 all
+        (8, 0, 0), (8, 1, 0), (10, 1, 0),                # ACCEPT 0, ACCEPT 1, PREWAIT on
+    ]
+    depth = 6 if full else 5
+    d = os.path.join(scratch, "chanenum")
+    os.makedirs(d, exist_ok=True)
+    with open(os.path.join(d, "alphabet.txt"), "w") as f:
+        for k, a, b in alphabet:
+            f.write("%d %d %d 0 0\n" % (k, a, b))
+    procs = []
+    caps = [(4, 2), (5, 3), (6, 4)]  # capacity -> CFG token field b (capacity = 2 + b % 7 for mode 5)
+    per_cap = max(1, nworkers // len(caps))
+    for cap, b in caps:
+        pf = os.path.join(d, "prefix%d.txt" % cap)
+        open(pf, "w").write("0 5 %d 0 0\n" % b)
+        for i in range(per_cap):
+            out = os.path.join(d, "c%d_%d" % (cap, i))
+            os.makedirs(os.path.join(out, "s"), exist_ok=True)
+            env = dict(env_base)
+            env.update({"VH_OUT": out, "VH_SCRATCH": os.path.join(out, "s"), "VH_ENUM_ALPHABET": os.path.join(d, "alphabet.txt"),
+                        "VH_ENUM_PREFIX": pf, "VH_ENUM_DEPTH": str(depth), "VH_ENUM_SHARD": "%d/%d" % (i, per_cap)})
+            from vcheck import _die_with_parent
+            logf = open(os.path.join(out, "log"), "wb")
+            procs.append((cap, out, subprocess.Popen([exe], env=env, stdout=logf, stderr=subprocess.STDOUT, cwd=out, preexec_fn=_die_with_parent), logf))
+    stats, cands = [], []
+    total = 0
+    for cap, out, p, logf in procs:
+        rc = p.wait()
+        logf.close()
+        try:
+            st = json.load(open(os.path.join(out, "stats.json")))
+            stats.append((out, st))
+            total += st["evaluations"]
+        except Exception:
+            st = None
+        if rc == 1:
+            for ft in sorted(os.listdir(out)):
+                if ft.startswith("fail-") and ft.endswith(".tape"):
+                    sig = open(os.path.join(out, ft + ".sig")).read().split("\n")
+                    cands.append(("bounded-exhaustive:cap%d" % cap, open(os.path.join(out, ft), "rb").read(), "verdict:" + sig[0], {"msg": sig[1] if len(sig) > 1 else ""}))
+        elif rc != 0:
+            log = open(os.path.join(out, "log"), "rb").read().decode("utf-8", "replace")
+            cur = os.path.join(out, "cur.tape")
+            from vcheck import read_cur_tape
+            cands.append(("bounded-exhaustive-crash:cap%d" % cap, read_cur_tape(cur), "crash:" + _crash(log), {"log": log[-2000:]}))
+    expected = sum(len(alphabet) ** k for k in range(1, depth + 1)) * len(caps)
+    extra = {"bounded_exhaustive": {"alphabet_tokens": len(alphabet), "depth": depth, "capacities": [c for c, _ in caps], "tapes_run": total,
+                                    "tapes_in_space": expected, "exhaustive_within_bound": total == expected,
+                                    "alphabet": "W_WRITE{1,2,cap-1,to-end} W_MAP(2) W_COMMIT W_ABORT R_READ{r0 all,r0 1 byte,r0 none,r1 all} R_MAP(r0) R_UNMAP(r0 all) ACCEPT{0,1} PREWAIT(on)"}}
+    return stats, cands, extra
